@@ -11,7 +11,7 @@ from model.ota_model import le16
 
 NODE_POOL = [1, 2, 3, 5, 8, 42, 100, 200, 253, 254, 0, 255]
 CHILD_POOL = [0, 1, 2, 3, 10, 100, 254]
-TEXTS = ["", "x", "tëst", "𝛑", "a b", "0", "20.5", "hello world", "-3", "ÅÄÖ", "日本", "q ", "'\"\\", "\x00z", "  lead"]
+TEXTS = ["", "x", "tëst", "𝛑", "a b", "0", "20.5", "hello world", "-3", "ÅÄÖ", "日本", "a/b", "28/09/2026", "q ", "'\"\\", "\x00z", "  lead"]
 VERSION_STRINGS = ["1.4", "1.5", "2.0", "2.1.1", "2.2", "2.2.0", "2.3.2"]
 
 DEFAULT_WEIGHTS = {
@@ -77,7 +77,7 @@ class Gen:
             valid = rng.random() < 0.85
         pool = [p for p, ok in items if ok == valid] or [p for p, _ok in items]
         if rule == "text" and rng.random() < 0.4:
-            return rng.choice(TEXTS[:12])
+            return rng.choice(TEXTS[:14])
         return rng.choice(pool)
 
     def known_node(self):
@@ -320,8 +320,17 @@ class Gen:
         rng = self.rng
         self.hostile += 1
         nid = self.a_node()
-        which = rng.randrange(8)
-        if which == 7:
+        which = rng.randrange(9)
+        if which == 8:
+            # a truncated frame: everything up to the sub-type, but no ';' and no payload field (five fields) - also for
+            # frames whose payload may legitimately be empty, and for a known node / child
+            kid = self.known_child(nid) if nid in self.model.nodes else None
+            forms = ["255;255;3;0;3", f"{nid};255;3;0;0", f"{nid};255;3;0;11"]
+            if kid is not None:
+                sub = self.sub_for_child(nid, kid)
+                forms += [f"{nid};{kid};1;0;{sub}", f"{nid};{kid};2;0;{sub}", f"{nid};{kid};1;0;{sub}", f"{nid};{kid};0;0;6"]
+            self.emit_line(rng.choice(forms))
+        elif which == 7:
             # child id out of range (or, for a stream frame, not 255) with a sub-type drawn over the whole table -
             # also 3 and 4, which only for INTERNAL messages (id request / response) excuse an odd child id
             cmd = rng.choice([0, 1, 2, 4])
@@ -462,7 +471,8 @@ class Gen:
         if pick == 0 or not known:
             nids = rng.choice(NODE_POOL)
         elif pick == 1:
-            nids = rng.sample(known, min(len(known), rng.randint(1, 3))) + ([77] if rng.random() < 0.3 else [])
+            nids = rng.sample(known, min(len(known), rng.randint(1, 3))) + ([77] if rng.random() < 0.4 else [])
+            rng.shuffle(nids)  # an id the gateway does not know may stand anywhere in the list, also first
         else:
             nids = rng.choice(known)
         ftype = rng.choice([0, 1, 1, 10, 255, 256, 65535])
